@@ -76,6 +76,10 @@ CHECKS = {
             "TLC checks on MC_GetConfig, over all histories of runs, that the reference write rule satisfies Precedence, Persist, DryStoresNothing, NoWriteStoresNothing, UidStable and OtherServersUntouched (and refutes the never-drop rule the library used to have). Behaviours simulated by TLC and seeded random histories (URLs with %, values equal to defaults, lists, booleans, versions; every subset of sources) are replayed on the real argument parser, merge_config, handlers and write_config with modules re-imported per run; the stateful trace specification carries the user file and default CLIENTUID and judges each run's effective settings and the file it leaves.",
             "Trusted: TLC, the reading of the precedence chain, the independent INI reading of ofxget.cfg, the fakes at OFXClient.post_request / ofxhome.lookup. Account ids containing commas and booleans set back to false are outside what the command line can express. The first --write may introduce the generated default CLIENTUID.",
             "DESIGN.md section 6 C18"),
+    "C14": ("TLA+ OFXNet exchange machine (clients, hosts, cookie jars, advertised URL): TLC model check of the routing/cookie invariants + TLC-simulated histories replayed against fake servers under urllib's opener + stateful trace validation reading every POST body",
+            "TLC checks on MC_Net, over all histories of calls by two clients, NoPostOnDryRun, OnePostPerRequest, ProfileIsAnonymous, ProfileGoesToConfiguredUrl, CredentialsOnlyWhereAllowed, CookieIsolation and CookieReplay. TLC-simulated and seeded histories (request kinds x dry/skip/normal x advertised URL same/different x cookie-setting hosts x up to 3 clients) are executed on real OFXClient instances against fake servers installed below urllib's opener; the stateful trace specification carries the jars and issued cookies, predicts the POSTs of every call (host, cookie value) and reads each POST body itself (OFXFile) to decide the request kind and whose credentials it carries; method and headers are checked per POST.",
+            "Trusted: TLC, the fake transport (only http_open/https_open replaced), the file layers. The urllib transport is the one installed here (requests is absent). Servers always answer a full profile (other server behaviours belong to C15).",
+            "DESIGN.md section 6 C14"),
 }
 
 PENDING = {}
